@@ -93,6 +93,9 @@ type gen struct {
 	cs  *caseState
 	rng *rand.Rand
 
+	// wantRestart asks the case runner for a clean restart of the node before the next step
+	wantRestart bool
+
 	// legit block hashes the harness proposed, by (h, r)
 	roundBlocks map[[2]uint64][]string
 	// all headers (legit or not) ever offered, for duplicates
@@ -1643,6 +1646,67 @@ func (g *gen) smStepNow(vh uint64, vr uint32, ch uint64) {
 // one generated step
 
 // offsets near the node's position, biased towards 0.
+// conflictingCertificate: "late ... and conflicting certificates for already committed heights"
+// (C04's quantifier). After the node committed block A at height ch in round cr, every
+// validator's genuine precommit for another block B of that same round is delivered (more
+// than one third of the power equivocates: outside what a BFT network tolerates, inside what
+// C04 promises of a single node's chain), and then a proposed header for the voting height that
+// builds on B and carries B's certificate as its previous commit proof. Only if the node accepts
+// that header does it also get the precommits that would commit it. Whatever happens, the
+// chain monitors of C04 look at the stores after this step as after every other one.
+func (g *gen) conflictingCertificate(vh uint64, vr uint32, ch uint64, cr uint32) {
+	if ch == 0 || ch < g.w.initH || vh != ch+1 {
+		return
+	}
+	g.cs.mu.Lock()
+	a, ok := g.cs.committedHash[ch]
+	g.cs.mu.Unlock()
+	if !ok {
+		return
+	}
+	b := ""
+	g.w.mu.Lock()
+	for _, bh := range g.roundBlocks[[2]uint64{ch, uint64(cr)}] {
+		if bi := g.w.blocks[bh]; bh != a && bi != nil && bi.legit && bi.h == ch {
+			b = bh
+		}
+	}
+	g.w.mu.Unlock()
+	if b == "" {
+		g.cs.count("attack.conflicting-certificate.no-second-block-in-commit-round")
+		return
+	}
+	set := g.w.set(ch)
+	all := make([]int, set.n())
+	for i := range all {
+		all[i] = i
+	}
+	g.cs.count("attack.conflicting-certificate")
+	g.cs.logf("ATTACK conflicting certificate: height %d round %d committed %s, now every validator precommits %s", ch, cr, shortHash(a), shortHash(b))
+	m := g.validVote(kindPrecommit, ch, cr, b, all)
+	m.desc = "conflicting-certificate-for-committed-height"
+	g.sendVote(m)
+	// a header for the voting height on top of B, with B's certificate
+	cp := g.w.commitProofFor(ch, cr, b, all, nil)
+	g.noteProofDelivered(ch, cp)
+	ph := g.w.makeBlock(vh, vr, []byte(b), cp, fmt.Sprintf("on-conflicting-%d-%d-%d", vh, vr, g.rng.Uint32()), g.pick(g.w.set(vh).n()))
+	g.w.mu.Lock()
+	if bi, ok := g.w.blocks[string(ph.Header.Hash)]; ok {
+		bi.legit = false
+	}
+	g.w.mu.Unlock()
+	if g.pick(2) == 0 {
+		// restart on the same stores before the next step: the committing header must come back as
+		// what the committed-header store holds, not as what the precommits now favour
+		g.wantRestart = true
+	}
+	res, ok := g.sendPH(ph, "builds-on-conflicting-certificate")
+	if ok && res == tmconsensus.HandleProposedHeaderAccepted {
+		g.cs.count("attack.conflicting-certificate.header-on-other-block-accepted")
+		g.sendVote(g.validVote(kindPrecommit, vh, vr, string(ph.Header.Hash), g.w.quorumSubset(g.rng, vh, false)))
+	}
+}
+
 func (g *gen) off() int {
 	return []int{0, 0, 0, 0, 1, 1, -1, -1, 2, -2, 3, -3}[g.pick(12)]
 }
@@ -1672,6 +1736,8 @@ func (g *gen) attack() {
 	switch x := g.pick(100); {
 	case x < 4:
 		g.overlappingVotes(vh, vr, cr)
+	case x < 6:
+		g.conflictingCertificate(vh, vr, ch, cr)
 	case x < 40:
 		kind := kindPrevote
 		if g.pick(2) == 0 {
